@@ -212,8 +212,8 @@ class DirectedAcyclicGraph:
             dag.remove_edge(self.exposure, endpoint)
 
         # Step 4) Directly connect all source nodes pointing to same endpoint (for collider assessment)
-        for n in dag:
-            sources = list(dag.predecessors(n))
+        parents = {n: list(dag.predecessors(n)) for n in dag}  # parents BEFORE any marriage edge is added
+        for n, sources in parents.items():
             if len(sources) > 1:
                 for s1, s2 in combinations(sources, 2):
                     if not (dag.has_edge(s2, s1) or dag.has_edge(s1, s2)):
